@@ -417,10 +417,15 @@ Proof.
   intros neg s t p d Hd Hcan V. set (r := if neg then 45 else 43).
   assert (r = 43 \/ r = 45) as Hr by (unfold r; destruct neg; auto).
   destruct (step_sign s t p r Hr V) as [s1 [E1 [V1 [P1 _]]]].
-  destruct (step_sign_plain s1 t r 73 V1 P1 Hr) as [s2 [E2 V2]];
-    try (unfold r; destruct neg; vm_compute; reflexivity).
-  destruct (run_plain [110; 102] s2 [73] _ 73) as [s3 [E3 V3]]; [repeat constructor|exact V2|].
-  destruct (step_delim s3 _ _ _ d (mkTok TFloat str_Inf) Hd ltac:(discriminate) ltac:(vm_compute; reflexivity) V3) as [s4 [E4 V4]].
+  assert (re_match re_FloatRegex [r; 73] = false) as N1 by (unfold r; destruct neg; vm_compute; reflexivity).
+  assert (re_match re_DecimalRegex [r; 73] = false) as N2 by (unfold r; destruct neg; vm_compute; reflexivity).
+  assert (re_match re_BuiltinOpRegex [r; 73] = false) as N3 by (unfold r; destruct neg; vm_compute; reflexivity).
+  assert (plain 73) as N0 by reflexivity.
+  destruct (step_sign_plain s1 t r 73 V1 P1 Hr N0 N1 N2 N3) as [s2 [E2 V2]].
+  destruct (run_plain [110; 102] s2 [73] (t ++ [mkTok TSymbol [r]]) 73) as [s3 [E3 V3]]; [repeat constructor|exact V2|].
+  assert ([73] ++ [110; 102] <> []) as Hne by discriminate.
+  assert (decode_atom ([73] ++ [110; 102]) = Some (mkTok TFloat str_Inf)) as Hdec by (vm_compute; reflexivity).
+  destruct (step_delim s3 ([73] ++ [110; 102]) (t ++ [mkTok TSymbol [r]]) (last [110; 102] 73) d (mkTok TFloat str_Inf) Hd Hne Hdec V3) as [s4 [E4 V4]].
   exists s4. split.
   - replace ((if neg then str_mInf else str_pInf) ++ [d]) with (r :: 73 :: [110; 102] ++ [d]) by (unfold r; destruct neg; reflexivity).
     cbn [lex_all]. rewrite E1, E2. rewrite lex_all_app, E3. cbn [lex_all]. rewrite E4. reflexivity.
@@ -559,6 +564,21 @@ Proof.
   rewrite <- app_assoc in V2. exact V2.
 Qed.
 
+Lemma float_val_lexes : forall sci c,
+  match c with FFin t => ftok_ok t sci /\ float_ok (float_text c sci) = true | _ => True end ->
+  lexes_to (float_text c sci)
+    (match c with
+     | FFin _ => [mkTok TFloat (float_text c sci)]
+     | FInf neg => [mkTok TSymbol [if neg then 45 else 43]; mkTok TFloat str_Inf]
+     | FNaN => [mkTok TFloat str_NaN]
+     end).
+Proof.
+  intros sci c H. destruct c as [|neg|t].
+  - exact nan_lexes.
+  - cbn [float_text]. exact (inf_lexes neg).
+  - destruct H as [H _]. apply float_fin_lexes; exact H.
+Qed.
+
 Section Data.
 Variable is_print : Z -> bool.
 
@@ -569,7 +589,7 @@ Fixpoint dat (tail : bool) (v : value) : Prop :=
     match v with
     | VInt z => - 2 ^ 63 <= z < 2 ^ 63
     | VUint z => 0 <= z < 2 ^ 64
-    | VFloat _ _ _ => False
+    | VFloat _ sci c => match c with FFin t => ftok_ok t sci /\ float_ok (float_text c sci) = true | _ => True end
     | VBool _ => True
     | VNil => True
     | VChar c => rune_ok is_print 39 c
@@ -586,7 +606,12 @@ Fixpoint tk (tail : bool) (v : value) : list token :=
     match v with
     | VInt z => [mkTok TDecimal (itoa z)]
     | VUint z => [mkTok TUint64 (utoa z)]
-    | VFloat _ sci c => []
+    | VFloat _ sci c =>
+        match c with
+        | FFin _ => [mkTok TFloat (float_text c sci)]
+        | FInf neg => [mkTok TSymbol [if neg then 45 else 43]; mkTok TFloat str_Inf]
+        | FNaN => [mkTok TFloat str_NaN]
+        end
     | VBool b => [mkTok TBool (if b then str_true else str_false)]
     | VNil => [mkTok TSymbol str_nil]
     | VChar c => [mkTok TChar [c]]
@@ -628,7 +653,7 @@ Proof.
   apply value_ind2.
   - intros z. atom_claim int_lexes.
   - intros z. atom_claim uint_lexes.
-  - intros b s c. split; [intros []|intros []].
+  - intros b s c. atom_claim (float_val_lexes s c).
   - intros b. split; [intros _; cbn [pr tk]; apply bool_lexes|intros _ a tks Ha; cbn [pr tk]; apply dotted_tail; [apply bool_lexes|exact Ha]].
   - split; [intros _; cbn [pr tk]; apply nil_lexes|].
     intros _ a tks Ha. cbn [pr tk]. apply (close_with 41); [left; reflexivity|exact Ha].
@@ -685,7 +710,8 @@ Notation dat := (dat is_print).
 
 Lemma tk_first : forall v, dat false v -> exists t0 l, tk false v = t0 :: l /\ value_start t0.
 Proof.
-  intros v D. destruct v; cbn [tk]; try (eexists; eexists; split; [reflexivity|exact I]); destruct D.
+  intros v D. destruct v; cbn [tk]; try (eexists; eexists; split; [reflexivity|exact I]); try (destruct D; fail).
+  destruct c; eexists; eexists; split; try reflexivity; exact I.
 Qed.
 
 Notation mq := mkQ (only parsing).
@@ -736,12 +762,29 @@ Lemma E_atoms :
 Proof.
   repeat split.
   - intros z. atom_E. cbn [dat] in D. rewrite parse_int_itoa by assumption. reflexivity.
-  - intros z. atom_E. cbn [dat] in D. rewrite conv_uint64_utoa by assumption. reflexivity.
+  - intros z. atom_E. cbn [dat] in D. rewrite conv_uint64_utoa by assumption.
+    replace (length (utoa z) <? 3)%nat with false by (symmetry; unfold utoa; rewrite app_length; apply Nat.ltb_ge; simpl; lia).
+    reflexivity.
   - intros b. atom_E. destruct b; reflexivity.
   - atom_E. reflexivity.
   - intros c. atom_E. reflexivity.
   - intros s. atom_E. reflexivity.
   - intros n. atom_E. cbn [dat] in D. rewrite (sym_not_sign n D), (sym_not_nil n D). reflexivity.
+Qed.
+
+Lemma E_float : forall b sci c, E (VFloat b sci c).
+Proof.
+  intros b sci c D f acc top rest e i k Hf. destruct f as [|f]; [simpl in Hf; lia|]. cbn [dat] in D.
+  destruct c as [|neg|t]; cbn [tk app].
+  - cbn [pexpr]. rewrite look_cons. cbn [tok_at nth q_toks q_tail tl q_err q_instr t_kind t_str to_sexp]. reflexivity.
+  - cbn [pexpr]. rewrite look_cons. cbn [tok_at nth q_toks q_tail tl q_err q_instr t_kind t_str to_sexp].
+    destruct neg; reflexivity.
+  - destruct D as [Ht Hok]. cbn [pexpr]. rewrite look_cons. cbn [tok_at nth q_toks q_tail tl q_err q_instr t_kind t_str to_sexp].
+    destruct (float_text_head t sci Ht) as [h [r [Eh Hh]]].
+    assert (list_eqb (float_text (FFin t) sci) str_NaN = false) as En.
+    { rewrite Eh. cbn [list_eqb str_NaN]. replace (h =? 78) with false; [reflexivity|].
+      symmetry. apply Z.eqb_neq. destruct Hh as [Hh|Hh]; [subst; discriminate|unfold digit in Hh; lia]. }
+    rewrite En, Hok, (float_text_sci t sci Ht). reflexivity.
 Qed.
 
 Lemma kind_is_start : forall t k, value_start t -> (k = TRParen \/ k = TBackslash \/ k = TComma \/ k = TRSquare) -> kind_is t k = false.
@@ -789,7 +832,7 @@ Proof.
   apply value_ind2.
   - intros z. split; [apply Ei|apply Hdot; [exact I|apply Ei]].
   - intros z. split; [apply Eu|apply Hdot; [exact I|apply Eu]].
-  - intros b s c. split; [intros []|intros []].
+  - intros b s c. split; [apply E_float|apply Hdot; [exact I|apply E_float]].
   - intros b. split; [apply Eb|apply Hdot; [exact I|apply Eb]].
   - split; [apply En|].
     intros _ h Dh Eh f acc rest e i k Hf.
@@ -846,7 +889,7 @@ End Parse.
 (* ======== the whole reader on a printed value ======== *)
 
 Lemma to_sexp_not_end : forall is_print v, dat is_print false v -> is_send (to_sexp v) = false.
-Proof. intros ip v D. destruct v; try reflexivity; destruct D. Qed.
+Proof. intros ip v D. destruct v; try reflexivity; try (destruct c; reflexivity); destruct D. Qed.
 
 Theorem read_print_data : forall is_print v fuel, dat is_print false v -> (vsize v + 3 <= fuel)%nat ->
   observe (parse_whole true false fuel (print is_print v)) = (StDone, [to_sexp v]).
@@ -1109,4 +1152,89 @@ Proof.
   exists s4. split; [|rewrite <- app_assoc in V4; exact V4].
   change ([34; 92; x; 34] ++ [d]) with (34 :: ([92; x] ++ [34; d])). cbn [lex_all]. rewrite E1.
   rewrite lex_all_app, E2. cbn [lex_all]. rewrite E3, E4. reflexivity.
+Qed.
+
+(* ======== every spelling of a notation is classified as that notation and, when the conversion
+   succeeds (strconv's range check), denotes the positional value of its digits ======== *)
+
+Lemma hexd_no_sign : forall h hs, hexd h -> no_sign (h :: hs).
+Proof. intros h hs H. unfold no_sign. destruct H as [H|[H|H]]; destruct h as [|q|q]; try exact I; try lia;
+  do 6 (destruct q as [q|q|]; try exact I); lia. Qed.
+
+Theorem hex_spelling_denotes : forall pf h hs, hexd h -> Forall hexd hs ->
+  decode_atom (48 :: 120 :: h :: hs) = Some (mkTok THex (h :: hs)) /\
+  (forall v, atom_value pf (mkTok THex (h :: hs)) = Some (RInt v) ->
+             v = pos_value 16 (map digit_of (h :: hs)) /\ 0 <= v < 2 ^ 63).
+Proof.
+  intros pf h hs Hh F. split; [apply classify_hex; assumption|].
+  intros v H. apply (literal_denotes_radix pf THex 16 (h :: hs) v); auto. apply hexd_no_sign; assumption.
+Qed.
+
+Theorem oct_spelling_denotes : forall pf h hs, octd h -> Forall octd hs ->
+  decode_atom (48 :: 111 :: h :: hs) = Some (mkTok TOct (h :: hs)) /\
+  (forall v, atom_value pf (mkTok TOct (h :: hs)) = Some (RInt v) ->
+             v = pos_value 8 (map digit_of (h :: hs)) /\ 0 <= v < 2 ^ 63).
+Proof.
+  intros pf h hs Hh F. split; [apply classify_oct; assumption|].
+  intros v H. apply (literal_denotes_radix pf TOct 8 (h :: hs) v); auto. apply hexd_no_sign. apply octd_hexd; assumption.
+Qed.
+
+Theorem bin_spelling_denotes : forall pf h hs, bind h -> Forall bind hs ->
+  decode_atom (48 :: 98 :: h :: hs) = Some (mkTok TBinary (h :: hs)) /\
+  (forall v, atom_value pf (mkTok TBinary (h :: hs)) = Some (RInt v) ->
+             v = pos_value 2 (map digit_of (h :: hs)) /\ 0 <= v < 2 ^ 63).
+Proof.
+  intros pf h hs Hh F. split; [apply classify_bin; assumption|].
+  intros v H. apply (literal_denotes_radix pf TBinary 2 (h :: hs) v); auto. apply hexd_no_sign. apply bind_hexd; assumption.
+Qed.
+
+Lemma remove_dig_no_sign : forall c ip, digit c -> no_sign (remove_z 95 (c :: ip)).
+Proof.
+  intros c ip Hc. cbn [remove_z]. replace (c =? 95) with false by (symmetry; apply Z.eqb_neq; unfold digit in Hc; lia).
+  apply hexd_no_sign. left. exact Hc.
+Qed.
+
+(* decimal with sign and underscores *)
+Theorem dec_spelling_denotes : forall pf (neg : bool) c ip, digit c -> Forall dig_ ip ->
+  decode_atom (spell NDec neg (c :: ip)) = Some (mkTok TDecimal (spell NDec neg (c :: ip))) /\
+  (forall v, atom_value pf (mkTok TDecimal (spell NDec neg (c :: ip))) = Some (RInt v) ->
+             v = math_value NDec neg (c :: ip) /\ - 2 ^ 63 <= v < 2 ^ 63).
+Proof.
+  intros pf neg c ip Hc Hi. split.
+  - cbn [spell]. apply classify_dec; auto. destruct neg; [right|left]; reflexivity.
+  - intros v H. apply (literal_denotes_dec pf neg (c :: ip) v); [apply remove_dig_no_sign; assumption|exact H].
+Qed.
+
+(* the ULL suffix *)
+Theorem ull_spelling_denotes : forall pf n h hs, (n = NUDec \/ n = NUHex \/ n = NUOct) -> hexd h -> Forall hexd hs ->
+  (n = NUDec -> starts_with [48; 111] (h :: hs) = false /\ starts_with [48; 120] (h :: hs) = false) ->
+  decode_atom (spell n false (h :: hs)) = Some (mkTok TUint64 (spell n false (h :: hs))) /\
+  (forall v, atom_value pf (mkTok TUint64 (spell n false (h :: hs))) = Some (RUint v) ->
+             v = pos_value (notation_base n) (map digit_of (h :: hs)) /\ 0 <= v < 2 ^ 64).
+Proof.
+  intros pf n h hs Hn Hh F Hd. split.
+  - destruct Hn as [H|[H|H]]; subst n; cbn [spell].
+    + apply (classify_ull [] h hs); auto. left; reflexivity.
+    + apply (classify_ull [48; 120] h hs); auto. right; left; reflexivity.
+    + apply (classify_ull [48; 111] h hs); auto. right; right; reflexivity.
+  - intros v H. apply (literal_denotes_uint pf n (h :: hs) v); auto. discriminate.
+Qed.
+
+(* a float spelling in any of the three forms is one float token whose value is ParseFloat of the
+   spelling without its underscores (when strconv accepts the placement of the underscores) *)
+Theorem float_spelling_denotes_A : forall pf sg c ip fp b sci, sign_ok sg -> digit c -> Forall dig_ ip -> Forall dig_ fp ->
+  decode_atom (formA sg c ip fp) = Some (mkTok TFloat (formA sg c ip fp)) /\
+  lexes_to (formA sg c ip fp) [mkTok TFloat (formA sg c ip fp)] /\
+  (sg = [] -> atom_value pf (mkTok TFloat (formA sg c ip fp)) = Some (RFloat sci (Some b) (formA sg c ip fp)) ->
+   pf (remove_z 95 (formA sg c ip fp)) = Some b).
+Proof.
+  intros pf sg c ip fp b sci Hs Hc Hi Hf. split; [apply classify_float_A; assumption|].
+  split; [apply float_A_lexes; assumption|].
+  intros E H. subst sg. apply (literal_denotes_float pf _ b sci) in H.
+  - tauto.
+  - unfold formA, inf_word. cbn [app list_eqb str_Inf str_inf].
+    replace (c =? 73) with false by (symmetry; apply Z.eqb_neq; unfold digit in Hc; lia).
+    replace (c =? 105) with false by (symmetry; apply Z.eqb_neq; unfold digit in Hc; lia). reflexivity.
+  - unfold formA. cbn [app]. apply hexd_no_sign. left; exact Hc.
+  - unfold formA. cbn [app list_eqb str_NaN]. replace (c =? 78) with false by (symmetry; apply Z.eqb_neq; unfold digit in Hc; lia). reflexivity.
 Qed.
